@@ -309,6 +309,8 @@ def dense_ops():
     ops.append(("add_edges_batch", [(2, 2, "b"), (2, 1, "a"), (2, 2, "b")], False, True))
     ops.append(("add_edges_batch", [(1, 2, ["a"]), (1, 2, ["b", "a"])], True, True))
     ops.append(("add_edges_batch", [(1, 2, "a"), (2, 1, "b"), (1, 2, "a")], False, False))
+    # the edge collection as a tuple of exactly three edges (C09-r8-1)
+    ops.append(("add_edges_batch", [(0, 1, "a"), (1, 2, "b"), (2, 0, "a")], False, True, [], "tuple"))
     # shallow copies: go on editing the copy / go on editing the original, the
     # other object stays live in the history's world (C09-r3-2)
     ops.append(("copy",))
@@ -510,6 +512,50 @@ def random_route(rng, int_labels=False, shallow=False, naming=None):
             fsa_model.Model.from_target_dict(td, [s0]), labels)
 
 
+# containers DRIVEN by the workload: the documented kind (list) and the tuple,
+# the sequence type any list-iterating implementation accepts.  The other
+# kinds pack_edges can build (iterators, generators, deques, dict views) and
+# list-valued edges are not driven: the docstring of add_edges says "a list of
+# tuples", and a correct implementation may iterate the collection twice,
+# take its length or hash an edge.
+EDGE_CONTAINERS = ["list", "tuple"]
+
+
+def pack_edges(edges, container="auto"):
+    """The edge collection handed to ONE add_edges call, in a given container
+    kind.  add_edges only iterates over its argument once and unpacks each
+    edge, so any iterable of 3-sequences is a collection of edges whatever its
+    type and LENGTH: list, tuple, iterator, generator, deque, dict views; the
+    edges themselves tuples or lists (seeded change C09-r8-1: a tuple of
+    length 3 taken for one (tail, head, label) edge, so a tuple of exactly
+    three edges becomes one bogus edge between tuple-named vertices).
+    'auto' picks kind and edge form from the content (deterministic, varies
+    from call to call).  dict_keys needs hashable edges and drops repeats of
+    a triple (the requested edge *set* is the same)."""
+    edges = list(edges)
+    h = len(repr(edges))
+    if container == "auto":
+        container = EDGE_CONTAINERS[h % len(EDGE_CONTAINERS)]
+    as_list = False          # edges stay tuples, as documented
+    if container == "dict_keys":
+        try:
+            return dict.fromkeys(tuple(e) for e in edges).keys()
+        except TypeError:               # elist mode: label lists are unhashable
+            container = "tuple"
+    edges = [list(e) if as_list else tuple(e) for e in edges]
+    if container == "tuple":
+        return tuple(edges)
+    if container == "iterator":
+        return iter(edges)
+    if container == "generator":
+        return (e for e in edges)
+    if container == "deque":
+        return collections.deque(edges)
+    if container == "dict_values":
+        return dict(enumerate(edges)).values()
+    return edges
+
+
 def resolve_batch(M, triples, elist, ignore_redundant, picks=()):
     """The in-domain edge list one add_edges call is given, worked out against
     the model at the moment of the call:
@@ -558,7 +604,7 @@ def apply_op(op, F, M):
         _, t, h, l = op
         if M.delta.get((t, l), h) != h:
             return F, M, "non-deterministic insertion"
-        F.add_edges([(t, h, l)])
+        F.add_edges(pack_edges([(t, h, l)]))
         M.add_edge(t, h, l)
     elif kind == "add_edges_elist":
         _, t, h, ls = op
@@ -566,7 +612,7 @@ def apply_op(op, F, M):
             return F, M, "non-deterministic insertion"
         if len(set(ls)) != len(ls):
             return F, M, "duplicate labels in one elist"
-        F.add_edges([(t, h, list(ls))], elist=True)
+        F.add_edges(pack_edges([(t, h, list(ls))]), elist=True)
         for l in ls:
             M.add_edge(t, h, l)
     elif kind in ("add_edges_batch", "add_edges_walk"):
@@ -587,10 +633,11 @@ def apply_op(op, F, M):
         else:
             _, triples, elist, ign = op[:4]
             picks = op[4] if len(op) > 4 else ()
+        container = op[5] if kind == "add_edges_batch" and len(op) > 5 else "auto"
         batch = resolve_batch(M, triples, elist, ign, picks)
-        if not batch:
-            return F, M, "empty batch (only non-deterministic / undeclared-redundant insertions)"
-        F.add_edges([(t, h, list(l) if elist else l) for (t, h, l) in batch],
+        # (a batch emptied by the domain filter is still a call: size 0)
+        F.add_edges(pack_edges([(t, h, list(l) if elist else l) for (t, h, l) in batch],
+                               container),
                     elist=bool(elist), ignore_redundant=bool(ign))
         for (t, h, l) in batch:
             for lab in (l if elist else [l]):
@@ -904,7 +951,7 @@ def random_ops(rng, labels, depth, nv=7):
 BATCH_STYLES = ["repeats", "walk", "with-existing", "elist"]
 
 
-def random_batch(rng, labels, nv, style=None, ignore_redundant=None):
+def random_batch(rng, labels, nv, style=None, ignore_redundant=None, container="auto"):
     """one add_edges call with several edges.  repeats: triples drawn with
     replacement from a small pool, one of them named again; walk: the edge
     list of a random walk (short, few vertices: it re-uses its own edges);
@@ -937,7 +984,7 @@ def random_batch(rng, labels, nv, style=None, ignore_redundant=None):
                        (t, h, list(l) if style == "elist" else l))
     picks = [int(rng.integers(0, 64)) for _ in range(int(rng.integers(1, 3)))] \
         if style == "with-existing" else []
-    return ("add_edges_batch", triples, style == "elist", ign, picks)
+    return ("add_edges_batch", triples, style == "elist", ign, picks, container)
 
 
 def wl_batches(run, rng, idx):
@@ -952,7 +999,10 @@ def wl_batches(run, rng, idx):
                                       naming=nm)
     ops = []
     for _ in range(int(rng.integers(1, 5))):
-        ops.append(random_batch(rng, labels, 7, style, ign))
+        # container kind of the edge collection: (idx // 4) % 2, independent of the
+        # style idx % 4; sizes 0..8 arise from the batch generator and domain filter
+        ops.append(random_batch(rng, labels, 7, style, ign,
+                                EDGE_CONTAINERS[(idx // 4) % len(EDGE_CONTAINERS)]))
         ops.extend(random_ops(rng, labels, int(rng.integers(0, 3))))
     run_history(run, name + "/batch:%s:%s" % (style, "filtered" if ign else "unfiltered"),
                 F, M, ops, naming=nm)
